@@ -4,7 +4,9 @@
 //! Case line: `{"k":"bin"|"un"|"cast"|"sub"|"contains", "op":…, "a":D, "b":D, …, "impl":S}` with
 //! `D = {"w":bits,"s":"start","e":"end","st":"stride","u":hint|null,"l":hint|null,"d":"delay"}` (signed
 //! decimal strings) and `S = "w|start|end|stride|upper|lower|delay|T/F"` (the implementation result).
-//! `cc` holds concrete triples `[x, y, Bitvector::bin_op(op, x, y)]` evaluated by the real bit-vector code.
+//! `cc` holds concrete triples `[x, y, Bitvector::bin_op(op, x, y)]` (binary operations) resp. pairs
+//! `[x, Bitvector::un_op / cast / subpiece (x)]` evaluated by the real bit-vector code; the driver compares
+//! them with the P-Code reference semantics `CweModel.Ref` and checks membership in the abstract result.
 use cwe_checker_lib::abstract_domain::*;
 use cwe_checker_lib::intermediate_representation::*;
 use verif_harness::*;
@@ -82,6 +84,25 @@ pub fn emit_bin(out: &mut Out, rng: &mut Rng, op: BinOpType, a: &Dom, b: &Dom, c
     out.case(&line, if top { None } else { Some(&key) });
 }
 
+/// concrete pairs `[x, f(x)]` from the real bit-vector code for the bounds and a middle member of `a`
+/// (`null` = `Err`; members on which the real operation asserts are left out)
+fn cc_unary(a: &Dom, f: &dyn Fn(&Bitvector) -> Option<Bitvector>) -> String {
+    let n = steps(a);
+    let mut ks = vec![0u128, n / 2, n];
+    ks.dedup();
+    let mut parts: Vec<String> = Vec::new();
+    for k in ks {
+        let x = member(a, k);
+        let bx = bv(a.w, x);
+        match guard(|| f(&bx)) {
+            Ok(Some(z)) => parts.push(format!("[\"{}\",\"{}\"]", x, sv(&z))),
+            Ok(None) => parts.push(format!("[\"{}\",null]", x)),
+            Err(_) => {}
+        }
+    }
+    format!("[{}]", parts.join(","))
+}
+
 pub fn emit_un(out: &mut Out, op: UnOpType, a: &Dom, cap: u64) {
     let ia = to_impl(a);
     let r = guard(|| ia.un_op(op));
@@ -89,7 +110,11 @@ pub fn emit_un(out: &mut Out, op: UnOpType, a: &Dom, cap: u64) {
         Ok(v) => show_impl(v),
         Err(p) => panic_str(p.clone()),
     };
-    let line = format!("{{\"k\":\"un\",\"op\":\"{:?}\",\"a\":{},\"cap\":{},\"impl\":\"{}\"}}", op, dom_json(a), cap, imp);
+    let cc = cc_unary(a, &|x| x.un_op(op).ok());
+    let line = format!(
+        "{{\"k\":\"un\",\"op\":\"{:?}\",\"a\":{},\"cap\":{},\"cc\":{},\"impl\":\"{}\"}}",
+        op, dom_json(a), cap, cc, imp
+    );
     out.count(&format!("un:{:?}", op));
     let top = r.as_ref().map(|v| v.is_top()).unwrap_or(false);
     let key = format!("{:?}|{}", op, dom_json(a));
@@ -103,9 +128,10 @@ pub fn emit_cast(out: &mut Out, op: CastOpType, a: &Dom, w2: usize, cap: u64) {
         Ok(v) => show_impl(v),
         Err(p) => panic_str(p.clone()),
     };
+    let cc = cc_unary(a, &|x| x.cast(op, ByteSize::new((w2 / 8) as u64)).ok());
     let line = format!(
-        "{{\"k\":\"cast\",\"op\":\"{:?}\",\"a\":{},\"w\":{},\"cap\":{},\"impl\":\"{}\"}}",
-        op, dom_json(a), w2, cap, imp
+        "{{\"k\":\"cast\",\"op\":\"{:?}\",\"a\":{},\"w\":{},\"cap\":{},\"cc\":{},\"impl\":\"{}\"}}",
+        op, dom_json(a), w2, cap, cc, imp
     );
     out.count(&format!("cast:{:?}", op));
     let top = r.as_ref().map(|v| v.is_top()).unwrap_or(false);
@@ -120,9 +146,10 @@ pub fn emit_sub(out: &mut Out, a: &Dom, low: usize, size: usize, cap: u64) {
         Ok(v) => show_impl(v),
         Err(p) => panic_str(p.clone()),
     };
+    let cc = cc_unary(a, &|x| Some(x.subpiece(ByteSize::new((low / 8) as u64), ByteSize::new((size / 8) as u64))));
     let line = format!(
-        "{{\"k\":\"sub\",\"a\":{},\"low\":{},\"size\":{},\"cap\":{},\"impl\":\"{}\"}}",
-        dom_json(a), low, size, cap, imp
+        "{{\"k\":\"sub\",\"a\":{},\"low\":{},\"size\":{},\"cap\":{},\"cc\":{},\"impl\":\"{}\"}}",
+        dom_json(a), low, size, cap, cc, imp
     );
     out.count("subpiece");
     let top = r.as_ref().map(|v| v.is_top()).unwrap_or(false);
